@@ -8,7 +8,7 @@ from rules import util
 from rules.util import P, show_b
 
 EXPLANATION = __doc__
-TRUSTED = ["rustc / extractor", "hmac::Mac::update is streaming: update(a); update(b) == update(a||b)", "HMAC-SHA1 / SHA-1 collision resistance"]
+TRUSTED = ["rustc / extractor", "digest::Mac::update is streaming: update(a); update(b) == update(a||b)", "HMAC-SHA1 / SHA-1 collision resistance"]
 NOT_DECIDED = ["HMAC / SHA-1 internals"]
 FLOORS = {"transcript": 4}
 
